@@ -419,7 +419,7 @@ impl Property for C01 {
     fn strategy(_tier: Tier) -> BoxedStrategy<Scenario> {
         let forms = all_forms();
         let unit = || (-60i8..=60, -60i8..=60);
-        (unit(), unit(), any::<bool>(), any::<bool>(), gen::finite_f32(), gen::finite_f32(), prop_oneof![any::<i64>().prop_map(|x| x >> 20), any::<i64>()], proptest::sample::select(forms))
+        (unit(), unit(), any::<bool>(), any::<bool>(), gen::finite_f32(), gen::finite_f32(), prop_oneof![3 => any::<i64>().prop_map(|x| x >> 20), 3 => any::<i64>(), 2 => gen::tie_i64()], proptest::sample::select(forms))
             .prop_map(|(u1, u2, same1, same2, a, b, n, form)| Scenario { u1, u2: if same1 && same2 { u1 } else { u2 }, a, b, n, form })
             .boxed()
     }
